@@ -283,7 +283,7 @@ def load_known(prop):
 
 
 def save_replay(prop, key, rec):
-    d = os.path.join(VERIF, 'replays', prop)
+    d = os.path.join(os.environ.get('VERIF_REPLAY_DIR') or os.path.join(VERIF, 'replays'), prop)
     os.makedirs(d, exist_ok=True)
     name = hashlib.sha1(key.encode()).hexdigest()[:10] + '.json'
     path = os.path.join(d, name)
@@ -434,8 +434,9 @@ def main(argv):
         'assumptions': list(mod.ASSUMPTIONS), 'wall_s': round(wall, 2), 'violations': len(violations),
         'violation_list': vio_out, 'repo': REPO,
     }
-    os.makedirs(os.path.join(VERIF, 'evidence'), exist_ok=True)
-    with open(os.path.join(VERIF, 'evidence', prop + '.json'), 'w') as f:
+    evdir = os.environ.get('VERIF_EVIDENCE_DIR') or os.path.join(VERIF, 'evidence')
+    os.makedirs(evdir, exist_ok=True)
+    with open(os.path.join(evdir, prop + '.json'), 'w') as f:
         json.dump(evidence, f, indent=1, default=_json_default)
     print('%s %s seed=%d: %d evaluations, %d distinct non-trivial, %d violation key(s), %.1fs%s' % (
         prop, tier, seed, evals, nt_count, len(violations), wall,
